@@ -952,3 +952,16 @@ Section Frame.
     cbn [length repeat frun fold_left]. unfold fstep at 2. cbn [nth_error set_nth]. apply IH.
   Qed.
 End Frame.
+
+(** The lockset theorem for a family of tables. *)
+Theorem races_known_all_race_free : forall Ts,
+  forallb (fun T => races_known T []) Ts = true ->
+  forall T, In T Ts ->
+  forall tr, valid multi_all T tr ->
+  forall pre mid post t1 a1 t2 a2,
+    tr = pre ++ EAcc t1 a1 :: mid ++ EAcc t2 a2 :: post ->
+    t1 <> t2 -> a_field a1 = a_field a2 -> a_write a1 || a_write a2 = true ->
+    hb tr (length pre) (length pre + 1 + length mid).
+Proof.
+  intros Ts H T I. rewrite forallb_forall in H. apply races_known_nil_race_free. apply H. exact I.
+Qed.
